@@ -56,3 +56,51 @@ func (fx *fnExec) callSiteHooksAfter(callee *ssa.Function, args []Val, res Val, 
 }
 
 var _ types.Type
+
+// dynCalleeName names the function value of a dynamic call: the parameter, local variable or
+// struct field it is loaded from.
+func dynCalleeName(v ssa.Value) string {
+	switch x := v.(type) {
+	case *ssa.Parameter:
+		return x.Name()
+	case *ssa.UnOp:
+		switch a := x.X.(type) {
+		case *ssa.Alloc:
+			return a.Comment
+		case *ssa.FieldAddr:
+			if pt, ok := a.X.Type().Underlying().(*types.Pointer); ok {
+				if st, ok := pt.Elem().Underlying().(*types.Struct); ok {
+					return st.Field(a.Field).Name()
+				}
+			}
+		case *ssa.FreeVar:
+			return a.Name()
+		}
+	case *ssa.FreeVar:
+		return x.Name()
+	}
+	return v.Name()
+}
+
+// dynCallHooks evaluates `assert at call <name>` clauses for calls through function values;
+// the arguments are available as $0, $1, ...
+func (fx *fnExec) dynCallHooks(name string, args []Val, st *State, pos token.Pos) {
+	if fx.c == nil {
+		return
+	}
+	for i, a := range fx.c.Asserts {
+		if a.Callee != name {
+			continue
+		}
+		fx.callCount["assert:"+a.Callee]++
+		if a.Nth != 0 && a.Nth != fx.callCount["assert:"+a.Callee] {
+			continue
+		}
+		env := fx.specEnv(st, fx.entry, nil)
+		for j := range args {
+			env.vars[fmt.Sprintf("$%d", j)] = args[j]
+		}
+		t := env.evalBool(a.Cond)
+		fx.oblige(fmt.Sprintf("assertcall.%s.%d#%d", a.Callee, i+1, fx.callCount["assert:"+a.Callee]), "assertcall", st, t, pos, a.Cond.Src)
+	}
+}
